@@ -110,7 +110,7 @@ def run(chk, mode, tier, timeout=None):
             body = ["return dispatch.run_lemma_extra(KEY, %r, %s, %s)" % (lid, env_with, env_without)]
             if not xbits:
                 continue  # no object node: nothing to add a key to
-            pre.append(" or ".join("b%d" % i for i in sorted(xbits)))
+            pre.append("(" + " | ".join("b%d" % i for i in sorted(xbits)) + ")")
         else:
             body = ["return dispatch.run_lemma(KEY, %r, %s)" % (lid, lm.al.env_expr())]
         lemmas.append(xh.Lemma(lid, params, body, pre=pre, meta={"site": lm.site}, cost=1 + lm.al.nbits))
